@@ -144,6 +144,15 @@ func cmdWorker(args []string) int {
 	return 0
 }
 
+// outDir is where evidence and replay files go (VERIF_OUT_DIR, default the
+// verif directory); mutation runs point it at a scratch directory.
+func outDir() string {
+	if d := os.Getenv("VERIF_OUT_DIR"); d != "" {
+		return d
+	}
+	return verifDir()
+}
+
 func verifDir() string {
 	if d := os.Getenv("VERIF_DIR"); d != "" {
 		return d
@@ -173,10 +182,10 @@ func cmdCheck(args []string) int {
 		}
 	}
 	if *evidence == "" {
-		*evidence = filepath.Join(verifDir(), "evidence", *prop+".json")
+		*evidence = filepath.Join(outDir(), "evidence", *prop+".json")
 	}
 	start := time.Now()
-	replayDir := filepath.Join(verifDir(), "replays")
+	replayDir := filepath.Join(outDir(), "replays")
 	scratch, err := os.MkdirTemp("", "simcheck-"+*prop+"-")
 	if err != nil {
 		fmt.Fprintln(os.Stderr, "check:", err)
